@@ -154,10 +154,10 @@ func (u *useGen) use(loopVar string) []*tw.Stmt {
 		if rapid.IntRange(0, 2).Draw(u.rt, "passSlot") == 0 {
 			continue
 		}
-		st.Slots = append(st.Slots, &tw.Stmt{Kind: tw.SSlot, Name: sn, Body: u.slotBody(loopVar), Text: rapid.SampledFrom([]string{"\n", " ", "\n  ", "", "\r\n", "\r\n\t", "\t", " \r\n \n"}).Draw(u.rt, "slotWs")})
+		st.Slots = append(st.Slots, &tw.Stmt{Kind: tw.SSlot, Name: sn, Body: u.slotBody(loopVar), Text: rapid.SampledFrom([]string{"\n", " ", "\n  ", "", "\r\n", "\r\n\t", "\t", " \r\n \n", "\n{{-- the next slot --}}\n", " {{-- a --}}{{-- b --}} ", "\n{{-- @slot @end }} --}}"}).Draw(u.rt, "slotWs")})
 	}
 	if len(st.Slots) > 0 {
-		st.Text = rapid.SampledFrom([]string{"\n", "", " ", "\r\n", "\t\r\n"}).Draw(u.rt, "endWs")
+		st.Text = rapid.SampledFrom([]string{"\n", "", " ", "\r\n", "\t\r\n", "\n{{-- end of the use --}}\n", "{{-- x --}}"}).Draw(u.rt, "endWs")
 		return []*tw.Stmt{st, tw.Text(";")}
 	}
 	// a slot-less use must be followed by something that is not whitespace
@@ -197,7 +197,7 @@ func (u *useGen) page(depth int) []*tw.Stmt {
 
 func TestC07_Components(t *testing.T) {
 	c := harness.New(t, "C07", "components",
-		"pages with 1..4 uses of seven component files (two placeholders whose names differ in letter case only; arguments used in text, expressions and conditions; a page variable that is not passed; two files that take nothing and show the variable of the loop around the use; default and named top-level slots; one under components/ addressed by '~name'): the same component several times with different arguments and different / missing slot bodies, uses inside @each and @for (arguments and slot bodies from the loop variable, >= 2 passes), inside @if/@elseif/@else, inside the @else of @each and @for, inside @insert blocks of a layout, and inside the slot body passed to another use; slot bodies with text and {{ }} over page variables. Expected: reference instantiation (arguments evaluated at the place of use, surrounding scope visible, each placeholder replaced by the body passed by that use or nothing). Non-trivial: one component used >= 2 times or a use evaluated in a loop. Distinct by hash of files + data.")
+		"pages with 1..4 uses of seven component files (two placeholders whose names differ in letter case only; arguments used in text, expressions and conditions; a page variable that is not passed; two files that take nothing and show the variable of the loop around the use; default and named top-level slots; one under components/ addressed by '~name'): the same component several times with different arguments and different / missing slot bodies, uses inside @each and @for (arguments and slot bodies from the loop variable, >= 2 passes), inside @if/@elseif/@else, inside the @else of @each and @for, inside @insert blocks of a layout, and inside the slot body passed to another use; slot bodies with text and {{ }} over page variables; blanks, line ends and comments before the first slot, between slots and before the closing @end. Expected: reference instantiation (arguments evaluated at the place of use, surrounding scope visible, each placeholder replaced by the body passed by that use or nothing). Non-trivial: one component used >= 2 times or a use evaluated in a loop. Distinct by hash of files + data.")
 	defer c.Finish()
 	in := interp()
 	runRapid(t, c, 4000, 45000, func(rt *rapid.T) {
